@@ -72,10 +72,18 @@ def run(pid, tier, deadline_s):
                     tasks.append((name, v, loc, sh, nsh))
     results = []
     timed_out = []
+    # a locale whose name says Turkish (wcsfc_s goes by the name): a copy of the installed C.utf8 under that name in a private LOCPATH
+    locpath = os.path.join(ROOT, "build", "locales"); trloc = None
+    if os.path.isdir("/usr/lib/locale/C.utf8"):
+        import shutil
+        if not os.path.isdir(os.path.join(locpath, "tr_TR.UTF-8")): os.makedirs(locpath, exist_ok=True); shutil.copytree("/usr/lib/locale/C.utf8", os.path.join(locpath, "tr_TR.UTF-8"), dirs_exist_ok=True)
+        trloc = "tr_TR.UTF-8"
+    if pid in SPECIAL_PROPS and trloc:
+        for v in variants: tasks.append(("special:unicode", v, trloc, 0, 1))
     if pid in SPECIAL_PROPS:
         for v in variants:
             for loc in ("C", "C.UTF-8"):
-                for grp in (("os",) if pid == "C06" else ("printf", "wprintf", "unicode", "normparts", "conv", "os")):
+                for grp in (("os",) if pid == "C06" else ("printf", "wprintf", "unicode", "normparts", "conv", "os", "oseast")):
                     tasks.append(("special:" + grp, v, loc, 0, 1))
     if pid == "C06":
         for sh in range(8): tasks.append(("longmove:" + ("200" if tier == "quick" else "400"), "prod", "C", sh, 8))
@@ -101,7 +109,7 @@ def run(pid, tier, deadline_s):
         if left <= 5:
             timed_out.append(t)
             return t, None
-        env = dict(os.environ, CAT_LIB=libs[v])
+        env = dict(os.environ, CAT_LIB=libs[v], LOCPATH=os.path.join(ROOT, "build", "locales"))
         try:
             if name.startswith("macroclient:"):
                 r = macroclient.task(*name.split(":")[1:])
@@ -198,7 +206,7 @@ def replay_kv(kv, quiet=False):
     build_harness()
     v = kv.get("variant", "prod")
     lib = vbuild.build(v)
-    env = dict(os.environ, CAT_LIB=lib)
+    env = dict(os.environ, CAT_LIB=lib, LOCPATH=os.path.join(ROOT, "build", "locales"))
     if kv["case"].startswith("macroclient "):
         return macroclient.replay(kv["case"], quiet)
     if kv["case"].startswith("longmove "):
